@@ -69,6 +69,16 @@ class C14(Prop):
             yield c
         for c in self.crowded(rng, tier):
             yield c
+        # a user behind a LambdaElicitor answers with plain Python numbers: an int when the value is whole, a float otherwise; the first agent's favourite is whole
+        for i in range(40 if tier == "quick" else 800):
+            rule = ["KARV", "TSF", "M2Q"][i % 3]; m = rng.randint(2, 6); n = m if rule != "KARV" else rng.randint(2, 5); k = rng.randint(1, m)
+            P = [rng.sample(range(1, m + 1), m) for _ in range(n)]; V = []
+            for a in range(n):
+                top = float(rng.randint(2, 6)) if (a == 0 or rng.random() < 0.3) else rng.randint(9, 27) / 4.0
+                vals = sorted([top] + [rng.choice([rng.randint(0, 8) / 4.0, float(rng.randint(0, 2))]) for _ in range(m - 1)], reverse=True)
+                vals[0] = max(vals); V.append([vals[P[a][j] - 1] for j in range(m)])
+            ent = {"KARV": "KARV.get_simulated_cardinal_profile", "TSF": "LambdaTSF.get_simulated_cardinal_profile", "M2Q": "MatchTwoQueries.get_simulated_cardinal_profile"}[rule]
+            yield dict(entry=ent, family=rule.lower() + "_python_scalar_answers", rule=rule, P=P, V=V, k=k, ezi=bool(i % 2), dtype="int64", prelude=[], answers="python_scalars")
 
     def crowded(self, rng, tier):
         # Match-TwoQueries with many agents who share (most of) one ranking: the serial dictatorship fills the top items with
